@@ -27,11 +27,11 @@
 #include <fcntl.h>
 #include <libgen.h>
 
-/* the real option handling code of hrepack */
-#include "/repo/mfhdf/hrepack/hrepack_parse.c"
-#include "/repo/mfhdf/hrepack/hrepack_opttable.c"
-#include "/repo/mfhdf/hrepack/hrepack_utils.c"
-#include "/repo/mfhdf/hrepack/hrepack.c"
+/* the real option handling code of hrepack, from the tree under test (found through -I<REPO>, vk.cc_harness) */
+#include "mfhdf/hrepack/hrepack_parse.c"
+#include "mfhdf/hrepack/hrepack_opttable.c"
+#include "mfhdf/hrepack/hrepack_utils.c"
+#include "mfhdf/hrepack/hrepack.c"
 int list_main(const char *infname, const char *outfname, options_t *options) { (void)infname; (void)outfname; (void)options; return 0; }
 
 static char bindir[700];
@@ -70,13 +70,14 @@ static void hexs(const char *s) { hk_hex(s, strlen(s)); }
 /* ------------------------------------------------------------------------------------------- option generator */
 
 #define MAXARG 24
-static char  argbuf[MAXARG][600];
+#define ARGSZ 3200 /* up to three paths of 900 characters (names of 255 characters inside nested vgroups) */
+static char  argbuf[MAXARG][ARGSZ];
 static char *args[MAXARG];     /* real argv for the binary (with file names) */
-static char  margbuf[MAXARG][600];
+static char  margbuf[MAXARG][ARGSZ];
 static char *margs[MAXARG];    /* what the model sees: same, but the argument of -f is the file CONTENT */
 static int   nargs;
 
-typedef struct { char kind[4]; char path[300]; int sds, gr; } objref_t;
+typedef struct { char kind[4]; char path[1400]; int sds, gr; } objref_t;
 static objref_t objs[32];
 static int      nobjs;
 
@@ -89,7 +90,7 @@ static void vg_path(const tg_spec_t *s, int g, char *out)
 static void obj_path(const tg_spec_t *s, int parent, const char *name, char *out)
 {
     vg_path(s, parent, out);
-    if (out[0]) strcat(out, "/");
+    if (parent >= 0) strcat(out, "/"); /* get_path: also after a vgroup whose name is empty */
     strcat(out, name);
 }
 
@@ -99,7 +100,7 @@ static void walk_vg(const tg_spec_t *s, int g, unsigned *seen_sds, unsigned *see
     int i;
     /* members were inserted in this order by tg_write: child vgroups, then SDS, GR, VS */
     for (i = 0; i < s->nvg; i++)
-        if (s->vg[i].parent == g) {
+        if (s->vg[i].parent == g && !tg_vg_reserved(&s->vg[i])) {
             strcpy(objs[nobjs].kind, "vg"); vg_path(s, i, objs[nobjs].path); objs[nobjs].sds = objs[nobjs].gr = -1; nobjs++;
             walk_vg(s, i, seen_sds, seen_gr, seen_vs);
         }
@@ -115,8 +116,10 @@ static void list_objects(const tg_spec_t *s)
     unsigned ss = 0, sg = 0, sv = 0;
     int      i;
     nobjs = 0;
+    /* a vgroup with one of the library's own classes (or named like the GR vgroup) is not entered by any tool: the data sets
+       and images below it are found at top level through the SD / GR interfaces (tg_adversarial keeps vgroups / vdatas out of it) */
     for (i = 0; i < s->nvg; i++)
-        if (s->vg[i].parent < 0) {
+        if (s->vg[i].parent < 0 && !tg_vg_reserved(&s->vg[i])) {
             strcpy(objs[nobjs].kind, "vg"); vg_path(s, i, objs[nobjs].path); objs[nobjs].sds = objs[nobjs].gr = -1; nobjs++;
             walk_vg(s, i, &ss, &sg, &sv);
         }
@@ -125,7 +128,14 @@ static void list_objects(const tg_spec_t *s)
     for (i = 0; i < s->nsds; i++)
         if (!(ss & (1u << i))) { strcpy(objs[nobjs].kind, "sds"); strcpy(objs[nobjs].path, s->sds[i].name); objs[nobjs].sds = i; objs[nobjs].gr = -1; nobjs++; }
     for (i = 0; i < s->nvs; i++)
-        if (!(sv & (1u << i))) { strcpy(objs[nobjs].kind, "vs"); strcpy(objs[nobjs].path, s->vs[i].name); objs[nobjs].sds = objs[nobjs].gr = -1; nobjs++; }
+        if (!(sv & (1u << i)) && !tg_reserved_class(s->vs[i].cls)) { strcpy(objs[nobjs].kind, "vs"); strcpy(objs[nobjs].path, s->vs[i].name); objs[nobjs].sds = objs[nobjs].gr = -1; nobjs++; }
+}
+
+/* can this path stand in an object list of -t / -c ? (an empty list entry makes the parser read an uninitialised name: bin/props.py assumptions) */
+static int path_optsafe(const char *p)
+{
+    size_t n = strlen(p);
+    return n > 0 && n < 900 && p[0] != ',' && p[n - 1] != ',' && !strstr(p, ",,");
 }
 
 static void gen_names(char *out, int allow_star, int messy)
@@ -140,7 +150,7 @@ static void gen_names(char *out, int allow_star, int messy)
             /* prefer SDS and images, sometimes a vdata / vgroup (not compressible) */
             int tries = 0, o = (int)hk_range(0, nobjs - 1);
             while (tries++ < 6 && objs[o].sds < 0 && objs[o].gr < 0 && !hk_chance(10)) o = (int)hk_range(0, nobjs - 1);
-            strcat(out, objs[o].path);
+            strcat(out, path_optsafe(objs[o].path) ? objs[o].path : "nosuch");
         }
         else strcat(out, hk_chance(50) ? "nosuch" : "sds0");
     }
@@ -183,7 +193,7 @@ static const tg_spec_t *cur_spec;
 static void rank_of_names(const char *names, int *rank, int32 *dims)
 {
     /* rank/dims of the first named object; for '*' of a random SDS/image */
-    char first[300];
+    char first[1500];
     int  i;
     *rank = 0;
     snprintf(first, sizeof first, "%s", names);
@@ -226,32 +236,32 @@ static int optfile_no;
    option file; `messy` replaces/adds malformed or conflicting pieces. */
 static void gen_options(int messy)
 {
-    char opts[12][500]; /* "-t\0value" pairs kept as: kind char + value */
+    static char opts[12][3200]; /* "-t\0value" pairs kept as: kind char + value */
     char kind[12];
     int  n = 0, k, i;
     int  cand[32], nc = 0;
     int  cmode = (int)hk_range(0, 99), kmode = (int)hk_range(0, 99);
     nargs = 0;
-    for (i = 0; i < nobjs; i++) if (objs[i].sds >= 0 || objs[i].gr >= 0) cand[nc++] = i;
+    for (i = 0; i < nobjs; i++) if ((objs[i].sds >= 0 || objs[i].gr >= 0) && path_optsafe(objs[i].path)) cand[nc++] = i;
     /* shuffle candidates */
     for (i = nc - 1; i > 0; i--) { int j = (int)hk_range(0, i), t = cand[i]; cand[i] = cand[j]; cand[j] = t; }
     if (cmode < 25) { /* no -t */ }
-    else if (cmode < 55 || nc == 0) { char v[64]; gen_comp_value(v, messy); snprintf(opts[n], 500, "*:%s", v); kind[n++] = 't'; }
+    else if (cmode < 55 || nc == 0) { char v[64]; gen_comp_value(v, messy); snprintf(opts[n], sizeof opts[0], "*:%s", v); kind[n++] = 't'; }
     else {
         int no = (int)hk_range(1, nc < 3 ? nc : 3), used = 0;
         while (used < no && n < 10) {
-            char v[64], names[400] = ""; int take = (int)hk_range(1, (no - used) < 2 ? (no - used) : 2), q;
+            char v[64], names[3000] = ""; int take = (int)hk_range(1, (no - used) < 2 ? (no - used) : 2), q;
             for (q = 0; q < take; q++) { if (q) strcat(names, ","); strcat(names, objs[cand[used + q]].path); }
             used += take;
             gen_comp_value(v, messy);
-            snprintf(opts[n], 500, "%s:%s", names, v); kind[n++] = 't';
+            snprintf(opts[n], sizeof opts[0], "%s:%s", names, v); kind[n++] = 't';
         }
     }
     if (kmode < 30) { /* no -c */ }
     else if (kmode < 55 || nc == 0) {
         char v[64], names[8] = "*"; int rank; int32 dims[TG_MAXRANK] = {0};
         rank_of_names(names, &rank, dims); gen_chunk_value(v, rank, dims, messy);
-        snprintf(opts[n], 500, "*:%s", v); kind[n++] = 'c';
+        snprintf(opts[n], sizeof opts[0], "*:%s", v); kind[n++] = 'c';
     }
     else {
         int no = (int)hk_range(1, nc < 3 ? nc : 3), used;
@@ -262,18 +272,18 @@ static void gen_options(int messy)
             for (k = 0; k < n; k++) if (kind[k] == 'c' && strncmp(opts[k], objs[o].path, strlen(objs[o].path)) == 0 && opts[k][strlen(objs[o].path)] == ':') dup = 1;
             if (dup && !messy) continue;
             rank_of_names(objs[o].path, &rank, dims); gen_chunk_value(v, rank, dims, messy);
-            snprintf(opts[n], 500, "%s:%s", objs[o].path, v); kind[n++] = 'c';
+            snprintf(opts[n], sizeof opts[0], "%s:%s", objs[o].path, v); kind[n++] = 'c';
         }
     }
-    if (hk_chance(50)) { snprintf(opts[n], 500, "%d", (int)(hk_chance(40) ? hk_range(0, 40) : hk_range(0, 3000))); kind[n++] = 'm'; }
+    if (hk_chance(50)) { snprintf(opts[n], sizeof opts[0], "%d", (int)(hk_chance(40) ? hk_range(0, 40) : hk_range(0, 3000))); kind[n++] = 'm'; }
     if (messy) {
         /* conflicting / malformed extras drawn from the old free generator */
         int extra = (int)hk_range(1, 2);
         while (extra-- > 0 && n < 11) {
-            char names[400], v[64]; int rank; int32 dims[TG_MAXRANK] = {0};
+            char names[3000], v[64]; int rank; int32 dims[TG_MAXRANK] = {0};
             switch ((int)hk_range(0, 3)) {
-                case 0: gen_names(names, 1, 1); gen_comp_value(v, 1); snprintf(opts[n], 500, hk_chance(5) ? "%s%s" : "%s:%s", names, v); kind[n++] = 't'; break;
-                case 1: gen_names(names, 1, 1); rank_of_names(names, &rank, dims); gen_chunk_value(v, rank, dims, 1); snprintf(opts[n], 500, hk_chance(5) ? "%s%s" : "%s:%s", names, v); kind[n++] = 'c'; break;
+                case 0: gen_names(names, 1, 1); gen_comp_value(v, 1); snprintf(opts[n], sizeof opts[0], hk_chance(5) ? "%s%s" : "%s:%s", names, v); kind[n++] = 't'; break;
+                case 1: gen_names(names, 1, 1); rank_of_names(names, &rank, dims); gen_chunk_value(v, rank, dims, 1); snprintf(opts[n], sizeof opts[0], hk_chance(5) ? "%s%s" : "%s:%s", names, v); kind[n++] = 'c'; break;
                 case 2: strcpy(opts[n], hk_chance(50) ? "12a" : "-5"); kind[n++] = 'm'; break;
                 default: if (n > 0) { int src = (int)hk_range(0, n - 1); strcpy(opts[n], opts[src]); kind[n] = kind[src]; n++; } break;
             }
@@ -281,16 +291,16 @@ static void gen_options(int messy)
     }
     /* random order */
     for (i = n - 1; i > 0; i--) {
-        int j = (int)hk_range(0, i); char t[500], c;
+        int j = (int)hk_range(0, i); static char t[sizeof opts[0]]; char c;
         if (j == i) continue;
         strcpy(t, opts[i]); strcpy(opts[i], opts[j]); strcpy(opts[j], t);
         c = kind[i]; kind[i] = kind[j]; kind[j] = c;
     }
     for (k = 0; k < n;) {
-        if (kind[k] != 'm' && hk_chance(15)) {
+        if (kind[k] != 'm' && hk_chance(15) && strlen(opts[k]) < 300) {
             /* move 1..3 consecutive -t/-c options into an option file */
             char content[1800] = "", fn[64]; FILE *f; int cnt = (int)hk_range(1, 3);
-            while (cnt-- > 0 && k < n && kind[k] != 'm') {
+            while (cnt-- > 0 && k < n && kind[k] != 'm' && strlen(opts[k]) < 300) {
                 char line[600];
                 snprintf(line, sizeof line, "-%c \"%s\"%s", kind[k], opts[k], hk_chance(70) ? "\n" : " ");
                 if (strlen(content) + strlen(line) < 580) strcat(content, line); /* margbuf is 600 bytes */
@@ -655,7 +665,7 @@ static void oracle_on_crash(int rc, const char *log, const char *what)
             char *p;
             if (!kind[0] && (p = strstr(line, "ERROR: AddressSanitizer: "))) sscanf(p + 25, "%60s", kind);
             if (!kind[0] && (p = strstr(line, "runtime error: "))) snprintf(kind, sizeof kind, "ubsan");
-            if (kind[0] && !fn[0] && strstr(line, "/repo/") && (p = strstr(line, " in "))) sscanf(p + 4, "%60s", fn);
+            if (kind[0] && !fn[0] && (strstr(line, "/repo/") || strstr(line, REPO "/")) && (p = strstr(line, " in "))) sscanf(p + 4, "%60s", fn);
         }
         fclose(f);
     }
@@ -739,11 +749,55 @@ static int skip_binary(void)
     return 0;
 }
 
+/* ------------------------------------------------------------------------------------------- which objects are copied */
+
+/* T repack reserved <class> => 0|1 : hrepack_utils.c:is_reserved (the function of the tree under test, in process) */
+static void tie_reserved(const char *cls)
+{
+    char tmp[TG_NAME + 8];
+    snprintf(tmp, sizeof tmp, "%s", cls);
+    printf("T repack reserved "); hexs(tmp); printf(" => %d\n", is_reserved(tmp) ? 1 : 0);
+}
+
+/* the user vgroups and vdatas of the description as the model sees them: vg|vs / name / class / index of the parent vgroup */
+static void print_nodes(const tg_spec_t *s)
+{
+    int i;
+    printf("%d", s->nvg + s->nvs);
+    for (i = 0; i < s->nvg; i++) { printf(" vg/"); hexs(s->vg[i].name); printf("/"); hexs(s->vg[i].cls); if (s->vg[i].parent >= 0) printf("/%d", s->vg[i].parent); else printf("/-"); }
+    for (i = 0; i < s->nvs; i++) { printf(" vs/"); hexs(s->vs[i].name); printf("/"); hexs(s->vs[i].cls); if (s->vs[i].parent >= 0) printf("/%d", s->vs[i].parent); else printf("/-"); }
+}
+
+/* description against a repacked file: every user object must have arrived (oracle keys user-*); objects that carry one of
+   the library's own classes are expected to be skipped (documented by is_reserved) - reported under their own key.
+   Then the tie: T repack keep <nodes> => <one digit per node: 1 copied, 0 not, 2 more than once> */
+static void check_user_objects(const tg_spec_t *s, const char *file, const char *what, const char *cl)
+{
+    int i, nres = 0;
+    char first_res[200] = "";
+    tg_report = 0;
+    if (tg_user_check(file, s) > 0) {
+        char key[80]; snprintf(key, sizeof key, "%s", tg_firstkey);
+        hk_fail(key, "%s%s [%ld differences] after: %s", what, tg_first, tg_ndiff, cl);
+    }
+    for (i = 0; i < s->nvg; i++)
+        if (tg_vg_reserved(&s->vg[i]) && tg_present_vg[i] == 0 && !nres++) snprintf(first_res, sizeof first_res, "vgroup <%.60s> of class <%.60s>", s->vg[i].name, s->vg[i].cls);
+    for (i = 0; i < s->nvs; i++)
+        if (s->vs[i].parent < 0 && tg_reserved_class(s->vs[i].cls) && tg_present_vs[i] == 0 && !nres++) snprintf(first_res, sizeof first_res, "lone vdata <%.60s> of class <%.60s>", s->vs[i].name, s->vs[i].cls);
+    if (nres) hk_fail("user-object-with-library-class-dropped", "%shrepack exits 0 and leaves out %d user object(s) whose class (or vgroup name %s) is one the library uses itself: %s; after: %s", what, nres, GR_NAME, first_res, cl);
+    printf("T repack keep "); print_nodes(s); printf(" => ");
+    for (i = 0; i < s->nvg; i++) printf("%d", tg_present_vg[i]);
+    for (i = 0; i < s->nvs; i++) printf("%d", tg_present_vs[i]);
+    if (s->nvg + s->nvs == 0) printf("-");
+    printf("\n");
+}
+
 static void run_case(int k)
 {
     static tg_spec_t spec;
-    char   in[700], out[700], out2[700], log[700], cl[1500];
-    int    messy = hk_chance(25), i, rc, o, ndropped = 0;
+    static char cl[12000];
+    char   in[700], out[700], out2[700], log[700];
+    int    messy = hk_chance(25), adv = hk_chance(45), i, rc, o, ndropped = 0;
     const char *st;
     lay_t  lin[32], lout;
 
@@ -752,10 +806,36 @@ static void run_case(int k)
     snprintf(out2, sizeof out2, "%s", hk_tmp("out2")); snprintf(out2 + strlen(out2), 32, "_%d.hdf", k);
     snprintf(log, sizeof log, "%s", hk_tmp("log")); snprintf(log + strlen(log), 32, "_%d.txt", k);
 
-    tg_random(&spec, TG_F_ALL);
+    tg_random(&spec, TG_F_ALL | (adv ? TG_F_ADVNAMES : 0));
     cur_spec = &spec;
+    if (verbose) {
+        for (i = 0; i < spec.nvg; i++) fprintf(stderr, "  vg %d <%s> class <%s> parent %d nattr %d\n", i, spec.vg[i].name, spec.vg[i].cls, spec.vg[i].parent, spec.vg[i].nattr);
+        for (i = 0; i < spec.nvs; i++) fprintf(stderr, "  vs %d <%s> class <%s> parent %d nattr %d\n", i, spec.vs[i].name, spec.vs[i].cls, spec.vs[i].parent, spec.vs[i].nattr);
+        for (i = 0; i < spec.nsds; i++) fprintf(stderr, "  sds %d <%s> parent %d nattr %d\n", i, spec.sds[i].name, spec.sds[i].parent, spec.sds[i].nattr);
+        for (i = 0; i < spec.ngr; i++) { int j; fprintf(stderr, "  gr %d <%s> parent %d nattr %d", i, spec.gr[i].name, spec.gr[i].parent, spec.gr[i].nattr); for (j = 0; j < spec.gr[i].nattr; j++) fprintf(stderr, " <%s>", spec.gr[i].attr[j].name); fprintf(stderr, "\n"); }
+        for (i = 0; i < spec.ngrattr; i++) fprintf(stderr, "  grattr <%s>\n", spec.grattr[i].name);
+    }
     if (tg_write(in, &spec) != 0) { hk_fail("generator", "tg_write failed (%d library errors)", tg_nerr); return; }
+    /* the input itself must be what the description says (otherwise the generator, not hrepack, is at fault) */
+    tg_report = 0;
+    if (tg_user_check(in, &spec) > 0) { hk_fail("generator", "the generated file does not match its description: %s: %s [%ld]", tg_firstkey, tg_first, tg_ndiff); return; }
+    if (adv) hk_stat("adversarial_names", 1);
+    /* attribute vdatas that go with the user objects every tool takes for the library's own: the object itself when its class is
+       _HDF_ATTRIBUTE, and one vdata per attribute of a skipped vgroup / vdata */
+    tg_lone_attr_class = 0;
+    for (i = 0; i < spec.nvs; i++)
+        if (spec.vs[i].parent < 0 && tg_reserved_class(spec.vs[i].cls)) {
+            int j;
+            tg_lone_attr_class += (strcmp(spec.vs[i].cls, _HDF_ATTRIBUTE) == 0) + spec.vs[i].nattr;
+            for (j = 0; j < spec.vs[i].nfld; j++) tg_lone_attr_class += spec.vs[i].fattr[j] ? 1 : 0;
+        }
+    for (i = 0; i < spec.nvg; i++) if (tg_vg_reserved(&spec.vg[i])) tg_lone_attr_class += spec.vg[i].nattr;
     list_objects(&spec);
+
+    /* ---- the class predicate of the tree under test, on the classes of this file and on fresh members of the family */
+    for (i = 0; i < spec.nvg; i++) tie_reserved(spec.vg[i].cls);
+    for (i = 0; i < spec.nvs; i++) tie_reserved(spec.vs[i].cls);
+    for (i = 0; i < 4; i++) { char c[TG_NAME]; tg_adv_string(c, 63, 300, TG_ADV_EMPTY | TG_ADV_EXACT | TG_ADV_COMMA | TG_ADV_LEADSP | TG_ADV_GRNAME, "ucls"); tie_reserved(c); }
     optfile_no = 0;
     gen_options(messy);
 
@@ -823,6 +903,8 @@ static void run_case(int k)
         hk_fail("gr-dropped-on-chunk-rank-mismatch", "hrepack exits 0 but %d image(s) are missing from the output (copy_gr: goto out with ret == 0); after: %s", ndropped, cl);
         return;
     }
+    /* ---- the user objects of the description, one by one, in the output */
+    check_user_objects(&spec, out, "", cl);
     /* ---- content: API-level comparison input vs output */
     tg_report = 0;
     if (tg_compare(in, out, 0) > 0) hk_fail(tg_firstkey, "%s [%ld differences] after: %s", tg_first, tg_ndiff, cl);
@@ -838,6 +920,7 @@ static void run_case(int k)
         if (!strcmp(st, "crash")) { oracle_on_crash(rc, log, cl); return; }
         if (!strcmp(st, "ok")) {
             hk_stat("second_repack", 1);
+            check_user_objects(&spec, out2, "second repack: ", cl);
             if (tg_compare(in, out2, 0) > 0) {
                 char key[80]; snprintf(key, sizeof key, "%s", tg_firstkey);
                 hk_fail(key, "second repack: %s [%ld differences] after: %s", tg_first, tg_ndiff, cl);
